@@ -5,7 +5,8 @@ Require Import MayV.Rt.PoisonModel MayV.Rt.PoisonInv.
 Section P.
 Variable isco : nat -> bool.
 Variable ismutex : nat -> bool.
-Notation step := (step isco ismutex).
+Variable fixd : bool.
+Notation step := (step isco ismutex fixd).
 Notation Inv := (Inv isco ismutex).
 
 Ltac held_cases HG g :=
@@ -103,7 +104,7 @@ Definition lock_st (s : st) (t l : nat) (k : gkind) : st :=
 
 Lemma step_shape s a s' : step s a = Some s' ->
    (exists t l k, a = Lock t l k /\ alive (T s t) = true /\ kind_ok ismutex l k = true /\ available (L s l) k = true /\ s' = lock_st s t l k)
-   \/ (exists t g0, In g0 (held (T s t)) /\ s' = do_drop isco s t g0)
+   \/ (exists t g0, In g0 (held (T s t)) /\ s' = do_drop isco fixd s t g0)
    \/ (L s' = L s /\ forall t0, held (T s' t0) = held (T s t0) \/ exists i d, held (T s' t0) = move_g i d (held (T s t0))).
 Proof.
   intro H. step_inv H; bools.
@@ -115,7 +116,7 @@ Qed.
 Lemma step_shape2 s a s' : step s a = Some s' ->
    (exists t l k, a = Lock t l k /\ alive (T s t) = true /\ kind_ok ismutex l k = true /\ available (L s l) k = true /\ s' = lock_st s t l k)
    \/ (exists t g0, (a = DropG t (gid g0) \/ a = UnwDrop t (gid g0)) /\ find_g (gid g0) (held (T s t)) = Some g0 /\
-                    In g0 (held (T s t)) /\ s' = do_drop isco s t g0)
+                    In g0 (held (T s t)) /\ s' = do_drop isco fixd s t g0)
    \/ (L s' = L s /\ (forall t0, held (T s' t0) = held (T s t0) \/ exists i d, held (T s' t0) = move_g i d (held (T s t0))) /\
        match a with Lock _ _ _ | DropG _ _ | UnwDrop _ _ => False | _ => True end).
 Proof.
@@ -247,6 +248,39 @@ Proof.
   all: specialize (K t); destruct (ctl (T s t)) as [|[|] r]; cbn in *; auto; discriminate.
 Qed.
 
+Lemma J9_step s a s' : Inv s -> step s a = Some s' -> forall t ins, In (CUnw MCancel ins) (ctl (T s' t)) -> cunw (T s' t) = true.
+Proof.
+  intros I H t0 ins. pose proof (J9 _ _ _ I) as K. step_inv H; proj; upds; proj; try apply K; try reflexivity.
+  all: intro HI; bools.
+  all: try (destruct HI as [HI|HI]; [discriminate HI|]).
+  all: try solve [eapply K; eassumption].
+  all: try solve [match goal with E : ctl (T _ ?t) = _ |- _ => apply (K t ins); rewrite E; cbn; auto end].
+Qed.
+
+Lemma J10_step s a s' : Inv s -> step s a = Some s' -> forall t, cunw (T s' t) = true ->
+  (exists ins, In (CUnw MCancel ins) (ctl (T s' t))) \/ swal (T s' t) = true \/ fin (T s' t) <> None.
+Proof.
+  intros I H t0. pose proof (J10 _ _ _ I) as K. step_inv H; proj; upds; proj; try apply K.
+  all: intro HC; bools.
+  all: try solve [left; eexists; left; reflexivity].
+  all: try solve [right; right; discriminate].
+  all: try (destruct (K _ HC) as [[ins HI]|[HS|HF]];
+            [ | right; left; try exact HS; try (destruct m; [exact HS|reflexivity])
+              | exfalso; unfold alive in *; match goal with A : match fin ?x with _ => _ end = true |- _ => destruct (fin x); [discriminate A|apply HF; reflexivity] end ]).
+  all: try solve [left; exists ins; right; exact HI].
+  all: try (match goal with E : ctl (T _ ?t) = _ |- _ => rewrite E in HI end).
+  all: try (destruct HI as [HI|HI]; [try discriminate HI|]).
+  all: try solve [left; exists ins; exact HI].
+  all: try (destruct HI as [HI|HI]; [try discriminate HI|]).
+  all: try solve [left; exists ins; exact HI].
+  all: try solve [inversion HI; subst; right; left; reflexivity].
+  destruct m as [v|]; [|right; left; reflexivity].
+  destruct (K _ HC) as [[ins1 HI]|[HS|HF]].
+  - rewrite E0 in HI. destruct HI as [HI|[HI|HI]]; try discriminate HI. left. exists ins1. exact HI.
+  - right. left. exact HS.
+  - exfalso. unfold alive in H. destruct (fin (T s t)); [discriminate H|apply HF; reflexivity].
+Qed.
+
 Theorem inv_step s a s' : Inv s -> step s a = Some s' -> Inv s'.
 Proof.
   intros I H. constructor.
@@ -262,10 +296,12 @@ Proof.
   - eapply J5d_step; eassumption.
   - eapply J6_step; eassumption.
   - eapply J8_step; eassumption.
+  - eapply J9_step; eassumption.
+  - eapply J10_step; eassumption.
   - eapply J7_step; eassumption.
 Qed.
 
-Theorem inv_reach s : Reach isco ismutex s -> Inv s.
+Theorem inv_reach s : Reach isco ismutex fixd s -> Inv s.
 Proof. induction 1; [apply inv_init | eapply inv_step; eassumption]. Qed.
 
 End P.
